@@ -193,6 +193,9 @@ def check(ctx):
             else:
                 r2.bad(V(r2.id, fid, "buffered-writer-not-flushed", "a %s is created but never flushed with a propagated result: write errors surfacing at drop are discarded, the run reports success"
                          % short_path(c.path), c.file, c.line))
+    # a write that may be partial is not a write whose failure is noticed (shared with C01-D5 / C14-D5)
+    from rulelib import check_whole_file_writes
+    check_whole_file_writes(P, r2, reach, what="file")
     r2.notes.append("buffered writers on the generation path: %d" % n_buf)
     r2.require_floor(8, "Result-returning filesystem-mutating call sites on the generation path")
     rules.append(r2)
